@@ -73,6 +73,9 @@ func (k *KDC) tcpLoop() {
 					body := make([]byte, n)
 					m, _ := io.ReadFull(c, body)
 					got = append(got, body[:m]...)
+					if m < int(n) {
+						framed = false // the request never arrived completely: nothing to answer
+					}
 				}
 			} else {
 				got = append(got, hdr[:hn]...)
